@@ -1,0 +1,27 @@
+//go:build verif
+
+package compile
+
+import "sync"
+
+// Verification hook (build tag verif only): records in which order the
+// compiler's map-range loops visit their keys, so that the harness can report
+// which distinct iteration orders were actually observed.
+
+var verifOrderMu sync.Mutex
+var verifOrderTrace = map[int][]string{}
+
+func verifOrder(site int, key string) {
+	verifOrderMu.Lock()
+	verifOrderTrace[site] = append(verifOrderTrace[site], key)
+	verifOrderMu.Unlock()
+}
+
+// VerifOrderTraceReset returns the keys visited per site since the last reset.
+func VerifOrderTraceReset() map[int][]string {
+	verifOrderMu.Lock()
+	t := verifOrderTrace
+	verifOrderTrace = map[int][]string{}
+	verifOrderMu.Unlock()
+	return t
+}
